@@ -882,6 +882,16 @@ func (t *Table) extractRow(row interface{}) Filter {
 //   string
 //   time.Time
 func driverValuesEqual(dv1, dv2 driver.Value) bool {
+	// The same text can be a string on one side and a []byte on the other (a
+	// filter value of type []byte on a string column, which SQL compares by
+	// content): compare the bytes.
+	if b, ok := dv1.([]byte); ok {
+		dv1 = string(b)
+	}
+	if b, ok := dv2.([]byte); ok {
+		dv2 = string(b)
+	}
+
 	k1 := reflect.ValueOf(dv1).Kind()
 	k2 := reflect.ValueOf(dv2).Kind()
 
